@@ -27,6 +27,10 @@ fn unhex(s: &str) -> Vec<u8> {
     (0..s.len() / 2).map(|i| u8::from_str_radix(&s[2 * i..2 * i + 2], 16).unwrap()).collect()
 }
 
+fn sid(c: &Value) -> Identifier {
+    Identifier::numeric(u(c, "id") as u32).unwrap()
+}
+
 fn command_of(c: &Value) -> EntryCommand {
     match s(c, "k") {
         "create_stream" => EntryCommand::CreateStream(CreateStream { stream_id: c.get("id").and_then(|v| v.as_u64()).map(|v| v as u32), name: s(c, "name").to_string() }),
@@ -34,6 +38,53 @@ fn command_of(c: &Value) -> EntryCommand {
         "delete_stream" => EntryCommand::DeleteStream(DeleteStream { stream_id: Identifier::numeric(u(c, "id") as u32).unwrap() }),
         "purge_stream" => EntryCommand::PurgeStream(PurgeStream { stream_id: Identifier::named(s(c, "name")).unwrap() }),
         "delete_user" => EntryCommand::DeleteUser(DeleteUser { user_id: Identifier::named(s(c, "name")).unwrap() }),
+        "create_topic" => EntryCommand::CreateTopic(iggy::topics::create_topic::CreateTopic {
+            stream_id: sid(c),
+            topic_id: c.get("tid").and_then(|v| v.as_u64()).map(|v| v as u32),
+            partitions_count: u(c, "id") as u32,
+            compression_algorithm: iggy::compression::compression_algorithm::CompressionAlgorithm::None,
+            message_expiry: crate::srv::expiry_of(c.get("expiry")),
+            max_topic_size: crate::srv::max_size_of(c.get("max_size")),
+            replication_factor: c.get("repl").and_then(|v| v.as_u64()).map(|v| v as u8),
+            name: s(c, "name").to_string(),
+        }),
+        "update_topic" => EntryCommand::UpdateTopic(iggy::topics::update_topic::UpdateTopic {
+            stream_id: sid(c),
+            topic_id: Identifier::named(s(c, "name")).unwrap(),
+            compression_algorithm: iggy::compression::compression_algorithm::CompressionAlgorithm::Gzip,
+            message_expiry: crate::srv::expiry_of(c.get("expiry")),
+            max_topic_size: crate::srv::max_size_of(c.get("max_size")),
+            replication_factor: c.get("repl").and_then(|v| v.as_u64()).map(|v| v as u8),
+            name: s(c, "name").to_string(),
+        }),
+        "delete_topic" => EntryCommand::DeleteTopic(iggy::topics::delete_topic::DeleteTopic { stream_id: sid(c), topic_id: Identifier::named(s(c, "name")).unwrap() }),
+        "purge_topic" => EntryCommand::PurgeTopic(iggy::topics::purge_topic::PurgeTopic { stream_id: sid(c), topic_id: Identifier::named(s(c, "name")).unwrap() }),
+        "create_partitions" => EntryCommand::CreatePartitions(iggy::partitions::create_partitions::CreatePartitions { stream_id: sid(c), topic_id: Identifier::named(s(c, "name")).unwrap(), partitions_count: u(c, "id") as u32 }),
+        "delete_partitions" => EntryCommand::DeletePartitions(iggy::partitions::delete_partitions::DeletePartitions { stream_id: sid(c), topic_id: Identifier::named(s(c, "name")).unwrap(), partitions_count: u(c, "id") as u32 }),
+        "create_group" => EntryCommand::CreateConsumerGroup(iggy::consumer_groups::create_consumer_group::CreateConsumerGroup {
+            stream_id: sid(c),
+            topic_id: Identifier::numeric(3).unwrap(),
+            group_id: c.get("tid").and_then(|v| v.as_u64()).map(|v| v as u32),
+            name: s(c, "name").to_string(),
+        }),
+        "delete_group" => EntryCommand::DeleteConsumerGroup(iggy::consumer_groups::delete_consumer_group::DeleteConsumerGroup { stream_id: sid(c), topic_id: Identifier::numeric(3).unwrap(), group_id: Identifier::named(s(c, "name")).unwrap() }),
+        "update_user" => EntryCommand::UpdateUser(iggy::users::update_user::UpdateUser {
+            user_id: Identifier::named(s(c, "name")).unwrap(),
+            username: c.get("new_name").and_then(|v| v.as_str()).map(|x| x.to_string()),
+            status: c.get("inactive").and_then(|v| v.as_bool()).map(|b| if b { UserStatus::Inactive } else { UserStatus::Active }),
+        }),
+        "change_password" => EntryCommand::ChangePassword(iggy::users::change_password::ChangePassword { user_id: sid(c), current_password: s(c, "name").to_string(), new_password: "another-hash".to_string() }),
+        "update_permissions" => EntryCommand::UpdatePermissions(iggy::users::update_permissions::UpdatePermissions {
+            user_id: Identifier::named(s(c, "name")).unwrap(),
+            permissions: c.get("perms").filter(|v| !v.is_null()).map(crate::perm::perms_from_json),
+        }),
+        "delete_pat" => EntryCommand::DeletePersonalAccessToken(iggy::personal_access_tokens::delete_personal_access_token::DeletePersonalAccessToken { name: s(c, "name").to_string() }),
+        "create_user_perms" => EntryCommand::CreateUser(CreateUser {
+            username: s(c, "name").to_string(),
+            password: "hashhashhash".to_string(),
+            status: UserStatus::Inactive,
+            permissions: c.get("perms").filter(|v| !v.is_null()).map(crate::perm::perms_from_json),
+        }),
         _ => EntryCommand::CreateUser(CreateUser { username: s(c, "name").to_string(), password: "hashhashhash".to_string(), status: UserStatus::Active, permissions: None }),
     }
 }
@@ -52,6 +103,7 @@ pub async fn make() {
         let mut bounds = vec![0usize];
         let mut clock = crate::srv::T0;
         let mut results = vec![];
+        let mut value_rt: Vec<bool> = vec![];
         for c in t["cmds"].as_array().unwrap() {
             clock += 1000;
             verif_clock::set(clock);
@@ -65,6 +117,14 @@ pub async fn make() {
                 }
                 std::fs::create_dir(&path).unwrap();
             }
+            {
+                // the command as a value: encoded and decoded again it must be the same command
+                use iggy::bytes_serializable::BytesSerializable;
+                let original = command_of(c);
+                let bytes = original.to_bytes();
+                let same = std::panic::catch_unwind(std::panic::AssertUnwindSafe(|| EntryCommand::from_bytes(bytes).map(|back| back == original).unwrap_or(false))).unwrap_or(false);
+                value_rt.push(same);
+            }
             let r = st.apply(u(c, "user") as u32, command_of(c)).await;
             if fail {
                 std::fs::remove_dir(&path).unwrap();
@@ -76,7 +136,7 @@ pub async fn make() {
             bounds.push(std::fs::metadata(&path).map(|m| m.len() as usize).unwrap_or(0));
         }
         let bytes = std::fs::read(&path).unwrap_or_default();
-        println!("{}", json!({"id": t["id"], "hex": hex(&bytes), "bounds": bounds, "applied": results,
+        println!("{}", json!({"id": t["id"], "hex": hex(&bytes), "bounds": bounds, "applied": results, "value_rt": value_rt,
             "version": SemanticVersion::current().unwrap().get_numeric_version().unwrap()}));
     }
     let _ = std::fs::remove_dir_all(&dir);
@@ -109,7 +169,25 @@ pub fn load(rt: &tokio::runtime::Runtime) {
                             json!([e.index, e.timestamp.as_micros(), e.user_id, code, cmd.len() - 8, cmd[8..].to_vec()])
                         })
                         .collect();
-                    json!({"ok": l})
+                    // every entry's command must decode and encode back to the bytes in the journal
+                    use iggy::bytes_serializable::BytesSerializable;
+                    let reenc: Vec<bool> = es
+                        .iter()
+                        .map(|e| {
+                            let raw = e.command.clone();
+                            // (maps inside a command are written in no fixed order: values are compared, and the command code)
+                            std::panic::catch_unwind(std::panic::AssertUnwindSafe(|| {
+                                EntryCommand::from_bytes(raw.clone())
+                                    .map(|c| {
+                                        let again = c.to_bytes();
+                                        again[0..4] == raw[0..4] && EntryCommand::from_bytes(again).map(|c2| c2 == c).unwrap_or(false)
+                                    })
+                                    .unwrap_or(false)
+                            }))
+                            .unwrap_or(false)
+                        })
+                        .collect();
+                    json!({"ok": l, "reenc": reenc})
                 }
             });
         }
